@@ -64,6 +64,39 @@ impl SegtreeItem<Aff> for HashAff {
     }
 }
 
+/// The hash summaries under a single modifier, negation (x -> -x = (Q-1)*x): the modifier type carries no data
+/// (zero-sized), the pending state is one flag.
+#[derive(Clone, Debug)]
+pub struct Flip;
+
+#[derive(Clone, Debug)]
+pub struct HashFlip {
+    pub h: i64,
+    pub len: i64,
+    fl: bool,
+}
+impl Default for HashFlip {
+    fn default() -> Self {
+        HashFlip { h: 0, len: 0, fl: false }
+    }
+}
+impl SegtreeItem<Flip> for HashFlip {
+    fn merge(l: &Self, r: &Self) -> Self {
+        HashFlip { h: (l.h * xpow(r.len) + r.h) % Q, len: l.len + r.len, fl: false }
+    }
+    fn modify(&mut self, _m: &Flip) {
+        self.h = ((Q - 1) * self.h).rem_euclid(Q);
+        self.fl = !self.fl;
+    }
+    fn push(&mut self, l: &mut Self, r: &mut Self) {
+        if self.fl {
+            l.modify(&Flip);
+            r.modify(&Flip);
+            self.fl = false;
+        }
+    }
+}
+
 #[derive(Clone, Debug)]
 pub struct SumAff {
     pub v: i64,
@@ -123,6 +156,21 @@ impl HItem for HashAff {
     }
     fn md(v: &Value) -> Aff {
         Aff(v[0].as_i64().unwrap(), v[1].as_i64().unwrap())
+    }
+}
+impl HItem for HashFlip {
+    type Md = Flip;
+    fn leaf(c: i64) -> Self {
+        HashFlip { h: c.rem_euclid(Q), len: 1, fl: false }
+    }
+    fn leaf_j(c: i64, j: i64) -> Self {
+        HashFlip { h: c.rem_euclid(Q), len: 1, fl: j == 1 }
+    }
+    fn obs(&self) -> Value {
+        json!([self.h, self.len])
+    }
+    fn md(_v: &Value) -> Flip {
+        Flip
     }
 }
 impl HItem for SumAff {
@@ -369,6 +417,7 @@ macro_rules! dispatch {
             "pair_minadd_maxadd" => $f::<Combinator<MinAdd<i64>, MaxAdd<i64>>>($($args),*),
             "pair_pair_min_max_sum" => $f::<Combinator<Combinator<Min<i64>, Max<i64>>, Sum<i64>>>($($args),*),
             "pair_hashaff_sumaff" => $f::<Combinator<HashAff, SumAff>>($($args),*),
+            "hashflip" => $f::<HashFlip>($($args),*),
             a => panic!("harness: unknown algebra {}", a),
         }
     };
@@ -398,11 +447,13 @@ pub fn replay(cases_path: &str, out: &str, focus: &str) {
 
 // ------------------------------------------------------------------------------------------- record
 
-const ALGS: [&str; 10] = ["hashaff", "pair_hashaff_sumaff", "minadd", "sumadd", "maxadd", "pair_minadd_maxadd",
-                          "pair_pair_min_max_sum", "min", "max", "sum"];
+const ALGS: [&str; 11] = ["hashaff", "pair_hashaff_sumaff", "minadd", "sumadd", "maxadd", "pair_minadd_maxadd",
+                          "pair_pair_min_max_sum", "min", "max", "sum", "hashflip"];
 
 fn rand_md(rng: &mut Rng, alg: &str) -> Value {
-    if alg.contains("aff") {
+    if alg == "hashflip" {
+        json!([Q - 1, 0])
+    } else if alg.contains("aff") {
         match rng.below(4) {
             0 => json!([0, rng.below(5)]),      // assign
             1 => json!([1, 1 + rng.below(4)]),  // add
@@ -423,7 +474,7 @@ fn rand_pred(rng: &mut Rng, alg: &str, n: usize) -> Value {
         0 => json!({"p": "true", "k": 0, "path": []}),
         1 => json!({"p": "false", "k": 0, "path": []}),
         _ => match alg {
-            "hashaff" => json!({"p": "lenge", "k": k(rng, n + 1), "path": []}),
+            "hashaff" | "hashflip" => json!({"p": "lenge", "k": k(rng, n + 1), "path": []}),
             "min" | "minadd" => json!({"p": "minle", "k": k(rng, 6) - 2, "path": []}),
             "max" | "maxadd" => json!({"p": "maxge", "k": k(rng, 8), "path": []}),
             "sum" => json!({"p": "sumge", "k": k(rng, 3 * n), "path": []}),
